@@ -170,8 +170,8 @@ func (v *fnVC) instr(b *ssa.BasicBlock, in ssa.Instruction, st *State) {
 	case *ssa.Next:
 		v.next(i, st)
 	case *ssa.Select:
-		v.unsupported("select at %s", v.pos(i.Pos()))
-		st.havocAll()
+		// no interleaving semantics: any ready case may be chosen, received values are unconstrained
+		v.notes = append(v.notes, "select at "+v.pos(i.Pos())+": outcome unconstrained (no interleaving semantics)")
 		v.setVal(i, e.freshConst("sel", e.sortOf(i.Type())))
 	case *ssa.Send:
 		v.notes = append(v.notes, "channel send at "+v.pos(i.Pos())+" (no interleaving semantics)")
